@@ -169,6 +169,7 @@ def superops(rng, d, Cn):
 # seeds of the case generators: one stream in the quick tier, three otherwise, shifted by VERIF_SEED
 _S0 = 3*int(os.environ.get('VERIF_SEED', '0'))
 SEEDS = [_S0] if os.environ.get('FFV_TIER', 'thorough') == 'quick' else [_S0, _S0 + 1, _S0 + 2]
+DIMS = (2, 3) if os.environ.get('FFV_TIER', 'thorough') == 'quick' else (2, 3, 4)
 
 
 def main():
@@ -184,7 +185,7 @@ def main():
     n_cases = 0
     for seed in SEEDS:
         rng = np.random.default_rng(1000 + seed)
-        for d in (2, 3, 4):
+        for d in DIMS:
             for bl, C in bases(rng, d):
                 Cn = np.array(C)
                 N = len(Cn)
@@ -239,7 +240,7 @@ def main():
     k = 0
     for seed in SEEDS:
         rng = np.random.default_rng(1000 + seed)
-        for d in (2, 3, 4):
+        for d in DIMS:
             for bl, C in bases(rng, d):
                 Cn = np.array(C)
                 for lab, S in superops(rng, d, Cn):
